@@ -19,7 +19,8 @@ MANIFEST = dict(
     technique='abstract interpretation of to_boc followed by the three from_boc entry points on DAG fixtures x 6 option sets x 3 input encodings; structural and hash-term comparison',
     text='Decides that parse(serialise(dag)) has identical hash and structure for every valid option combination, for raw/hex/base64 input and '
          'through the Cell, Slice and Builder entry points, on DAG fixtures covering sharing, duplicates, exotic cells and the header width '
-         'boundaries. Fixtures are finite; the general-DAG claim rests on C04 (writer conforms) + C05 (reader accepts all conforming input).',
+         'boundaries. Fixtures are finite; the general-DAG claim rests on C04 (writer conforms) + C05 (reader accepts all conforming input).'
+         ' A cell serialised inside one bag and then as the root of its own round-trips both times; a second parse of the same bytes hands out a fresh Slice / Builder / Cell, whatever the first caller did with its result. A 70 KB bag (three-byte offsets) is among the fixtures.',
     note='trusted: interpreter + models (base64, bytes.fromhex). Not decided: arbitrary DAGs beyond the fixtures.',
     design_ref='DESIGN.md section 4 C03')
 
